@@ -11,7 +11,7 @@ import numpy as np
 
 from sim import manager as simmanager
 from sim.genpipe import all_outputs, build_inputs, build_pipeline, describe, gen_workload, map_kwargs
-from sim.kernel import Deadlock, StepCap
+from sim.kernel import Deadlock, SimCrash, StepCap
 from sim.tape import Tape
 from sim.userfuncs import canon
 
@@ -271,9 +271,12 @@ def gen_case(tape, tier):
     if not split and tape.coin(0.3, "learner-fixed"):
         a = tape.pick(ind, "axis")
         fixed = {a: tape.pick(gen_partition(tape, w["indices"][a]), "fixed-part")}
-    return {"family": "learners", "workload": w, "split": split, "fixed": fixed,
+    case = {"family": "learners", "workload": w, "split": split, "fixed": fixed,
             "return_output": bool(tape.coin(0.5, "return-output")), "pickle_learners": bool(tape.coin(0.3, "pickle")),
             "config": {"storage": "file_array"}}
+    if tape.coin(0.25, "learner-crash"):
+        case["learner_crash"] = 3 + tape.choose(40, "crash-at")
+    return case
 
 
 def _n_parts(per_axis):
@@ -315,6 +318,10 @@ def simplify(case):
             c["config"]["executor"] = {"kind": "sequential"}
             yield c
     if case["family"] == "learners":
+        if case.get("learner_crash") is not None:
+            c = copy.deepcopy(case)
+            del c["learner_crash"]
+            yield c
         for k in ("pickle_learners", "return_output", "split"):
             if case.get(k):
                 c = copy.deepcopy(case)
@@ -423,6 +430,8 @@ def run_case(case, exec_seed=None, exec_tape=None):
                     sim.kernel.run(main)
                 except (Deadlock, StepCap) as e:
                     V("liveness", type(e).__name__, str(e))
+                except SimCrash as e:
+                    err = e  # the simulated process died where the caller asked it to
                 except Exception as e:  # noqa: BLE001
                     err = e
                 finally:
@@ -687,10 +696,12 @@ def _run_learners(case, w, ref, folder, process, V, probes, tape):
 
     seen = collections.Counter()
 
-    def go(sim):
+    def go(sim, cleanup=True, crash_at=None):
+        if crash_at is not None:
+            sim.fs.crash_at = sim.fs.n + crash_at  # the process running the learners dies before that file-system event
         p = build_pipeline(w)
         ld = create_learners(p, build_inputs(w), folder, internal_shapes=map_kwargs(w).get("internal_shapes"),
-                             storage=case["config"]["storage"], return_output=case["return_output"], cleanup=True,
+                             storage=case["config"]["storage"], return_output=case["return_output"], cleanup=cleanup,
                              fixed_indices=_fx(case["fixed"]) if case["fixed"] else None,
                              split_independent_axes=case["split"])
         # per key: generations in order; across keys and inside a generation: any interleaving, point by point
@@ -728,10 +739,23 @@ def _run_learners(case, w, ref, folder, process, V, probes, tape):
         probes["learner_keys"] = probes.get("learner_keys", 0) + len(ld)
         return len(ld)
 
-    nkeys, err, sim = process(go)
+    stored = collections.Counter()
+    if case.get("learner_crash") is not None:
+        # the process that drives the learners dies somewhere in the middle; the learners are then created again on the
+        # same folder with cleanup=False and run to the end: nothing stored is redone, nothing half-stored counts as done
+        _n, err, sim0 = process(lambda s: go(s, crash_at=case["learner_crash"]))
+        if isinstance(err, SimCrash):
+            probes["learners_process_died"] = 1
+            stored = c05.stored_elements(folder, w, ref)
+            nkeys, err, sim = process(lambda s: go(s, cleanup=False))
+        else:
+            nkeys, sim = _n, sim0  # the crash point lay beyond the end: an ordinary complete run
+    else:
+        nkeys, err, sim = process(go)
     if err is not None:
         V("learners", f"learners-raised:{type(err).__name__}", {"exc": repr(err)[:300]}, {"frame": _frame(err)})
         return
+    seen.update(stored)  # what was completely stored before the crash counts as computed
     for c in sim.calls:
         seen[c.key()] += 1
         if seen[c.key()] > max(1, ref.C0.get(c.key(), 0)):
@@ -741,7 +765,9 @@ def _run_learners(case, w, ref, folder, process, V, probes, tape):
         if c.key() not in ref.C0:
             V("learners", "call-not-in-whole-run", {"call": repr(c)})
             return
-    if case["fixed"] is None and sum(seen.values()) != sum(ref.C0.values()):
+    # (after a crash the stored/computed bookkeeping cannot attribute None-valued or result-like outputs to their call;
+    # completeness is then judged by the final run below, which must find everything there)
+    if case["fixed"] is None and case.get("learner_crash") is None and sum(seen.values()) != sum(ref.C0.values()):
         missing = list((ref.C0 - seen).keys())[:3]
         V("learners", "learners-did-not-compute-everything", {"missing": repr(missing)[:400]})
         return
